@@ -280,7 +280,8 @@ class Generator(TreeListener):
             src = self.get_mx(tree.operands[0]).T
         elif op == "sum" and n_operands == 1:
             v = self.get_mx(tree.operands[0])
-            src = ca.sum1(v)
+            # Modelica's sum() reduces over all elements, whatever the orientation
+            src = ca.sum1(ca.vec(ca.MX(v)))
         elif op == "linspace" and n_operands == 3:
             a = self.get_mx(tree.operands[0])
             b = self.get_mx(tree.operands[1])
